@@ -143,12 +143,25 @@ def _implied(table, a, b, c):
 def load_table():
     with open(TABLE_FILE) as f:
         raw = json.load(f)
-    return {fn: {(a, b): c for a, b, c in lst} for fn, lst in raw.items()}
+    return {fn: {(a, b): c for a, b, c in lst} for fn, lst in raw.items() if not fn.startswith('__')}
+
+
+def load_params():
+    """{function: parameter names at the time the table was reviewed}"""
+    with open(TABLE_FILE) as f:
+        return json.load(f).get('__params__', {})
+
+
+def _head(sym):
+    if sym == '0':
+        return None
+    return sym.split(':', 1)[1].split('.')[0]
 
 
 def rule_acceptance_regions(ctx, cfg='prod-all', only=None):
     prog = ctx.prog(cfg)
     table = load_table()
+    params = load_params()
     n = 0
     for e in ENTRIES:
         if only and not any(e.endswith(o) for o in only):
@@ -160,7 +173,11 @@ def rule_acceptance_regions(ctx, cfg='prod-all', only=None):
         if body.path not in table:
             raise AnchorMissing('acceptance region of %s is not tabled' % body.path)
         tab = table[body.path]
-        new = [(a, b, c) for (a, b), c in sorted(reg.items()) if not _implied(tab, a, b, c)]
+        # a private function may change its parameter list (the public entry points that use it are compared on their own, fixed, interface):
+        # only constraints over the parameters it had when the table was reviewed are compared
+        vocab = None if body.j.get('pub') else set(params.get(body.path, []))
+        new = [(a, b, c) for (a, b), c in sorted(reg.items()) if not _implied(tab, a, b, c)
+               and (vocab is None or all(_head(x) is None or _head(x) in vocab for x in (a, b)))]
         n += 1
         yield Ob('RF-V', '%s#acceptance-region' % body.path, not new,
                  'every constraint on the inputs that holds at the success returns is implied by the tabled acceptance conditions (no new refusal of inputs accepted before)',
